@@ -1,16 +1,16 @@
 #!/bin/bash
-# seed_diagonal.sh: every seeded change against the check of the property it was written for
-# (applied to /repo, undone afterwards); writes /verif/seeded/diagonal.tsv: seed, check, exit, #VIOLATION, #no-failing-input-found
-out=/verif/seeded/diagonal.tsv
+# seed_diagonal.sh: every seeded change against the check of the property it was written for (applied to the repository
+# the checks read — /repo, or $HLS_REPO for a background run on a snapshot — and undone afterwards);
+# writes seeded/diagonal.tsv: seed, check, exit, #VIOLATION, #no-failing-input-found
+V=$(cd "$(dirname "$0")/.." && pwd); R=${HLS_REPO:-/repo}
+out=$V/seeded/diagonal.tsv; log=${DIAG_LOG:-/tmp/diag_logs}; mkdir -p $log
 : > $out
-for sdir in /verif/seeded/C*/; do
+for sdir in $V/seeded/C*/; do
   sid=$(basename $sdir); c=${sid:0:3}
-  git -C /repo checkout -- .
-  git -C /repo apply $sdir/patch.diff || { echo "$sid apply-failed" >> $out; continue; }
-  timeout 1800 /verif/check $c --tier quick > /tmp/r3/diagall_$sid.log 2>&1
+  git -C $R apply $sdir/patch.diff || { echo "$sid apply-failed" >> $out; continue; }
+  timeout 1800 $V/check $c --tier quick > $log/diag_$sid.log 2>&1
   ec=$?
-  printf "%s\t%s\t%s\t%s\t%s\n" $sid $c $ec $(grep -c "^VIOLATION" /tmp/r3/diagall_$sid.log) $(grep -c "no-failing-input-found" /tmp/r3/diagall_$sid.log) >> $out
-  git -C /repo checkout -- .
+  printf "%s\t%s\t%s\t%s\t%s\n" $sid $c $ec $(grep -c "^VIOLATION" $log/diag_$sid.log) $(grep -c "no-failing-input-found" $log/diag_$sid.log) >> $out
+  git -C $R apply -R $sdir/patch.diff
 done
-git -C /repo checkout -- .
 echo done >> $out
